@@ -19,7 +19,8 @@ EXHAUSTIVE = True
 RULE = (
     "tables: dims 1..3 x every axis x both directions x both spellings (letter, int); layout helpers: every array shape with extents "
     "1..3 (thorough 1..4) x payload {none, trailing 2} with provenance-coded data; Image.slice / reduce_axis: every 2-D and 3-D image shape "
-    "with extents 1..3 x origin {default, user} x every axis (int and Cartesian name) x every cut position x modes {average, sum}. "
+    "with extents 1..3 x origin {default, user} x every axis (int and Cartesian name) x every cut position x modes {average, sum}; coordinate systems of 1-D/2-D/3-D images created in every order (all "
+    "permutations of 2 and 3 dimensions) and kept. "
     "Non-trivial = every case (each compares two independent sources); distinct = distinct case descriptor."
 )
 ASSUMPTIONS = ["the coordinate-system convention of the reference model is the documented one (cross-checked against CoordinateSystem)"]
@@ -49,6 +50,12 @@ def cases(tier):
         for s in itertools.product(range(1, n + 1), repeat=dim):
             for origin in ("default", "user"):
                 out.append({"kind": "image-axis", "dim": dim, "shape": list(s), "origin": origin})
+    # coordinate systems of images of different dimension, created in every order and KEPT: each
+    # keeps following the table of its own dimension whatever was created after it
+    for order in itertools.permutations((1, 2, 3)):
+        out.append({"kind": "kept-systems", "dim": order[0], "order": list(order)})
+    for order in itertools.permutations((1, 2, 3), 2):
+        out.append({"kind": "kept-systems", "dim": order[0], "order": list(order)})
     # export to the Cartesian (VTK) layout: scalar and vector cell data
     for dim in (1, 2, 3):
         for s in [tuple([2, 3, 4][:dim]), tuple([3, 2, 2][:dim]), tuple([2] * dim)]:
@@ -154,6 +161,37 @@ def run_case(case, r):
             want[car.index(conv[m][0])] = conv[m][1] * keep[p] * vs[p]
         r.check(np.array_equal(got, want) and np.array_equal(gv, keep), f"C20/coordinate_vector/dim={dim}/generic", "all components at once", got=got, want=want)
         r.outcome(("tables", dim))
+        return
+
+    if case["kind"] == "kept-systems":
+        kept = {}
+        for d in case["order"]:
+            im, vsd = _img([2, 3, 4][:d], "user")
+            kept[d] = (im.coordinatesystem, vsd, im)
+        tagk = "order=" + "".join(str(d) for d in case["order"])
+        for d, (cs, vsd, im) in kept.items():
+            matd, card, conv = "ijk"[:d], "xyz"[:d], CONV[d]
+            cell = f"C20/kept-coordinate-system/dim={d}"
+            o = np.asarray(cs.coordinate(np.zeros(d, dtype=int)), dtype=float)
+            for p_, m in enumerate(matd):
+                e = np.zeros(d, dtype=int)
+                e[p_] = 1
+                step = np.asarray(cs.coordinate(e), dtype=float) - o
+                want = np.zeros(d)
+                want[card.index(conv[m][0])] = conv[m][1] * vsd[p_]
+                r.check(np.array_equal(step, want), cell, "a coordinate system kept while systems of other dimensions were created still moves one voxel step along the conventional axis", order=tagk, axis=m, got=step, want=want)
+                back = np.asarray(cs.voxel(o + 0.5 * np.sum([np.eye(d)[card.index(conv[x][0])] * conv[x][1] * vsd[q] for q, x in enumerate(matd)], axis=0) + want), dtype=int)
+                r.check(np.array_equal(back.ravel(), e), cell, "... and maps the centre of that voxel back to its index", order=tagk, axis=m, got=back, want=e)
+                vec = np.zeros(d)
+                vec[p_] = 0.25
+                gotv = np.asarray(cs.coordinate_vector(vec.copy()), dtype=float)
+                wantv = np.zeros(d)
+                wantv[card.index(conv[m][0])] = conv[m][1] * 0.25 * vsd[p_]
+                r.check(np.array_equal(gotv, wantv), cell, "... and converts displacement vectors by the table of its own dimension", order=tagk, axis=m, got=gotv, want=wantv)
+            fresh = im.coordinatesystem
+            V = np.array(list(itertools.product(*[range(n + 1) for n in im.num_voxels])), dtype=int)
+            r.check(np.array_equal(np.asarray(cs.coordinate(V)), np.asarray(fresh.coordinate(V))), cell, "the kept system agrees with a freshly requested one on every voxel corner", order=tagk)
+        r.outcome(("kept", tuple(case["order"])))
         return
 
     if case["kind"] == "vtk":
